@@ -412,6 +412,63 @@ func init() {
 		},
 	})
 	eng.Register(&eng.Scenario{
+		Name: "promise-preresolved", Props: []string{"C11"}, MustFinish: true, ObsNames: stdObs,
+		Doc:   "Promise constructed already resolved (NewPromiseWithResult(v,nil|E|Canceled) or NewPromiseWithErr(E), choice): two later SetResult calls must both return false and every kind of await (incl. one with an already-cancelled context) returns the constructor's pair",
+		Quick: eng.Bounds{PB: 2}, Thorough: eng.Bounds{PB: 3},
+		Body: func() {
+			bg := context.Background()
+			var p *promise.Promise[int]
+			wantV, wantC := 11, int64(0)
+			switch vsched.Choose(4) {
+			case 0:
+				p = promise.NewPromiseWithResult(11, nil)
+			case 1:
+				p = promise.NewPromiseWithResult(11, errRes)
+				wantC = 1
+			case 2:
+				p = promise.NewPromiseWithResult(11, context.Canceled)
+				wantC = 2
+			case 3:
+				p = promise.NewPromiseWithErr[int](errRes)
+				wantV, wantC = 0, 1
+			}
+			errCh := make(chan error, 1)
+			cancelCh := make(chan struct{})
+			dead, cancel := context.WithCancel(bg)
+			deadAwaiter := vsched.Choose(2) == 1
+			if deadAwaiter {
+				cancel()
+			}
+			for i, k := range []int{aPlain, aErrCh, aCancelCh} {
+				i, k := i, k
+				T("A", func() {
+					ctx := bg
+					if deadAwaiter && i == 0 {
+						ctx = dead
+					}
+					v, err := doAwait(p, k, ctx, errCh, cancelCh)
+					vsched.Observe(oRet, int64(i), int64(v), errCode(err))
+					if deadAwaiter && i == 0 && v == 0 && err == context.Canceled {
+						return // an await with a cancelled context may report that instead
+					}
+					if v != wantV || errCode(err) != wantC {
+						fail("C11.wrong-result", "%s on a promise constructed with (%d, code %d) returned (%d, %v)", aLabels[k], wantV, wantC, v, err)
+					}
+				})
+			}
+			for i := 0; i < 2; i++ {
+				i := i
+				T("S", func() {
+					if p.SetResult(20+i, nil) {
+						fail("C11.winner-count", "SetResult on a promise that was constructed with a result returned true")
+					}
+				})
+			}
+			vsched.Settle()
+			cancel()
+		},
+	})
+	eng.Register(&eng.Scenario{
 		Name: "promise-set3", Props: []string{"C11"}, MustFinish: true, ObsNames: stdObs,
 		Doc:   "Promise: 3 concurrent SetResult calls (each result chosen from {(v,nil),(v,E),(v,Canceled),(v,DeadlineExceeded)}) and 2 plain awaiters; exactly one winner, awaiters see the winner's pair",
 		Quick: eng.Bounds{PB: 2}, Thorough: eng.Bounds{PB: 4},
